@@ -15,7 +15,7 @@ CLAIM = {
 
 def run(ctx):
     ctx.cov["rule"] = ("same generator as C01 (chains of 1..3 sequences, all encoder options, header sizes 12/14, 255-field and 255-byte boundary messages); every accepted output is "
-                       "checked against Wire.wf_stream_b inside Coq and against decoder.CheckIntegrity; non-trivial = accepted encode; distinct by output bytes")
+                       "checked against Wire.wf_stream_b inside Coq and against decoder.CheckIntegrity; plus the C09 oracle (all writer kinds, buffer sizes, stream, earlier content) on 14 chains; non-trivial = accepted encode; distinct by output bytes")
     ctx.cov["checker_cmd"] = "coq/build.sh Props/C02.vo Run/RunC01.vo; coqc Props/C02.v; coqc cases_C02_*.v (vm_compute: check_enc, check_wf, check_wf_legacy)"
     tr = ctx.prepare(parts=["factory", "dump-consts", "crc"])
     ok, _ = ctx.coq(["Props/C02.vo", "Run/RunC01.vo"])
@@ -38,6 +38,14 @@ def run(ctx):
     found = False
     for f in [f for f in h.fails if f.get("kind") in ("check-integrity", "decode-of-encoded")][:3]:
         ctx.violation({"source": "direct Go oracle: decoder.CheckIntegrity / decode of the encoder's output", "failing": f})
+        found = True
+    # the same holds whatever the destination is: every writer kind / buffer size / batch or stream must leave the bytes the plain
+    # strategy wrote (which are checked above), also when appending to earlier content (the documented append flow)
+    h9 = ctx.harness(["c09", "--seed", ctx.seed + 1000, "--tier", ctx.tier, "-n", 14 if ctx.tier == "quick" else 300], timeout=3000)
+    ctx.count(h9.stats.get("oracle_configurations", 0) + h9.stats.get("oracle_configurations_preexisting", 0))
+    for f in h9.fails[:2]:
+        ctx.violation({"source": "direct Go oracle: a successful encode left a destination content that is not the well-formed stream the plain strategy writes "
+                                 "(writer kind / buffer size / stream / earlier content)", "failing": f})
         found = True
     if ok:
         bad, err = ctx.run_cases("Run.RunC01", "ecfg * list ifile * eobs", enc, check="check_enc", shard=25)
